@@ -4,6 +4,7 @@ from mir import op_place, place_str
 import fwd
 
 META = {
+    "thorough_extra": ["server-only", "tls"],
     "level": "other",
     "explanation": "Bookkeeping of the sniffing reader and the rewind buffer, decided on all paths of ReadVersion::poll and Rewind::poll_read: (C08.1) after every successful read the "
                    "progress is stored in `filled` before the next read / Pending return and the cursor is advanced by exactly that on re-entry; (C08.2) the incremental comparison "
